@@ -552,6 +552,11 @@ impl Cluster {
                 let p = n.dbs.pending_opps.read().unwrap();
                 out.push_str(&format!(" pending={}", p.len()));
             }
+            {
+                let snap = n.dbs.to_snapshot.read().unwrap();
+                let v: Vec<String> = snap.iter().map(|(n, r)| format!("{}:{}", esc(n.as_bytes()), r)).collect();
+                out.push_str(&format!(" snap=[{}]", v.join(",")));
+            }
             let map = n.dbs.map.read().unwrap();
             let mut names: Vec<&String> = map.keys().collect();
             names.sort();
